@@ -90,6 +90,9 @@ def run(ck):
     configs.append(('omp n=16 delays seed 2', kvh, None, ['delay 500 2'], 16))
     configs.append(('omp n=5 passive', kvh, dict(os.environ, OMP_WAIT_POLICY='passive', OMP_DYNAMIC='true'), [], 5))
     configs.append(('omp n=4 active', kvh, dict(os.environ, OMP_WAIT_POLICY='active', OMP_PROC_BIND='spread'), [], 4))
+    # the parallel region of aln_runner is nested inside the one of create_msa_tree: its two halves only run concurrently with nested parallelism on
+    configs.append(('omp n=8 nested levels=2', kvh, dict(os.environ, OMP_MAX_ACTIVE_LEVELS='2', OMP_NESTED='true'), [], 8))
+    configs.append(('omp n=6 nested levels=3 delays seed 3', kvh, dict(os.environ, OMP_MAX_ACTIVE_LEVELS='3', OMP_NESTED='true'), ['delay 400 3'], 6))
     configs.append(('no-openmp no-avx2', kvp, None, [], 1))
     results = {}
     for label, exe, env, pre, thr in configs:
